@@ -246,7 +246,7 @@ const DEADLINE_NS: u64 = 200 * SEC;
 
 fn make_conn(rng: &mut Prng, idx: usize, mode: Mode, v6: bool, buffer_size: u64, max_len: u64, flow: u64, hdr: Option<(String, HdrClass, Vec<u8>, Option<SocketAddr>, Option<SocketAddr>)>) -> ConnPlan {
     let (front, backend, src): (SocketAddr, SocketAddr, SocketAddr) = if v6 {
-        (format!("[2001:db8:f::{:x}]:{}", idx + 1, 8000 + idx).parse().unwrap(), format!("[2001:db8:b::{:x}]:{}", idx + 1, 9000 + idx).parse().unwrap(), format!("[2001:db8:c::{:x}]:{}", 7 + idx, 40001 + idx).parse().unwrap())
+        (format!("[2001:db8:f::{:x}]:{}", idx + 1, 8000 + idx).parse().unwrap(), format!("[2001:db8:b::{:x}]:{}", idx + 1, 9000 + idx).parse().unwrap(), if rng.below(4) == 0 { format!("[::ffff:192.0.2.{}]:{}", 7 + idx, 40001 + idx).parse().unwrap() } else { format!("[2001:db8:c::{:x}]:{}", 7 + idx, 40001 + idx).parse().unwrap() })
     } else {
         (format!("10.0.0.{}:{}", idx + 1, 8000 + idx).parse().unwrap(), format!("10.1.0.{}:{}", idx + 1, 9000 + idx).parse().unwrap(), format!("192.0.2.{}:{}", 7 + idx, 40001 + idx).parse().unwrap())
     };
